@@ -294,11 +294,11 @@ theorem erunAllE_eq (I : InnerEnc) (given : Option Name) (cs : List (List Nat)) 
 theorem rerr_mono (given : Option Name) (force : Bool) (a x : List Nat) (h : rerr given force a = true) :
     rerr given force (a ++ x) = true := by
   unfold rerr at *
-  cases hc : choose given force a with
+  cases hc : readerEnc given force a with
   | none => simp [hc] at h
   | some E =>
     simp only [hc] at h
-    simp only [choose_stable given force a x E hc]
+    simp only [readerEnc_stable given force a x E hc]
     exact errAt_mono E a x false h
 
 /-- a turn of the `read()` loop raises iff the inner decoder of the chosen encoding raises on the data so far -/
@@ -309,14 +309,14 @@ theorem rstepE_none (I : Inner) (given : Option Name) (force : Bool) (a em x : L
   cases s with
   | waiting enc bb =>
     obtain ⟨rfl, _, hok, _⟩ := h
-    simp only [rstepE, rerr, choose_ok given force bb x enc hok]
-    cases hc : choose given force (bb ++ x) with
+    simp only [rstepE, rerr, readerEnc_ok given force bb x enc hok]
+    cases hc : readerEnc given force (bb ++ x) with
     | none => simp
     | some E =>
       cases he : errAt E (bb ++ x) false <;> simp
   | reading E c =>
     obtain ⟨rfl, hE, _⟩ := h
-    simp only [rstepE, rerr, choose_stable given force c x E hE]
+    simp only [rstepE, rerr, readerEnc_stable given force c x E hE]
     cases he : errAt E (c ++ x) false <;> simp
 
 theorem rrunChunksE_spec (I : Inner) (given : Option Name) (force : Bool) (cs : List (List Nat)) :
@@ -392,7 +392,7 @@ theorem readAllE_eq (I : Inner) (given : Option Name) (force : Bool) (cs : List 
   · subst hcs
     have : rerr given force [] = false := by
       unfold rerr
-      cases choose given force [] with
+      cases readerEnc given force [] with
       | none => rfl
       | some E => exact errAt_nil E
     simp [rrunChunksE, rrunChunks, this]
